@@ -42,9 +42,14 @@ example : ('_' : Char) ≠ '*' ∧ starMatch "_1".toList "_1".toList = true ∧ 
 theorem starMatch_nil (s : Str) : starMatch [] s = true ↔ s = [] := by
   cases s <;> simp [starMatch]
 
+example : starMatch [] [] = true ∧ starMatch [] "a".toList = false := by decide
+
 /-- The three clauses above are the whole relation. -/
 theorem starMatch_iff_rel (p s : Str) : starMatch p s = true ↔ StarRel p s :=
   CylcModel.Like.starMatch_iff_rel p s
+
+example : StarRel ['a', '*'] ['a', 'b'] :=
+  .lit 'a' _ _ (by decide) (.star [] ['b'] [] _ rfl .nil)
 
 /-- The SQLite operator the code uses, applied to the code's rewrite of the pattern, decides
 exactly the `*`-wildcard relation — for every pattern and text (any length, any characters).
